@@ -404,3 +404,7 @@ def assume(cond):
 
 class AssumptionViolated(Exception):
     pass
+
+
+class NativeOnly:
+    """placeholder for repository classes that cannot be imported in the tooling interpreter"""
